@@ -308,6 +308,16 @@ pub fn run_history_on<P: Payload>(w: &mut World<P>, ops: &[Op], prof: &Profile, 
                 run.resynced += 1;
                 continue;
             }
+            if !hits && cfg.target.as_deref() == Some("C10") {
+                // the double-ended laws relate an iterator to its own forward sequence: judge them on this state too
+                let mut d = DeepOut::default();
+                w.check_dei_selfref(&mut d);
+                run.evals += d.evals;
+                if !d.failures.is_empty() {
+                    run.fail = Some((i, d.failures, None));
+                    break;
+                }
+            }
             if !hits && cfg.target.as_deref() == Some("C11") {
                 // the case ends here, but the lookup clauses have no well-formedness premise: judge them on
                 // this state against what the history says about liveness (e.g. a removed node that stays visible)
